@@ -14,7 +14,7 @@ import (
 
 func init() { Registry["C08"] = C08 }
 
-var c08Paths = []string{"print", "assign", "concat", "compare", "argument", "return", "slice-store-literal", "slice-store-assign", "range", "subscript", "len", "write-read"}
+var c08Paths = []string{"print", "assign", "concat", "compare", "argument", "argument-direct", "return", "slice-store-literal", "slice-store-assign", "range", "subscript", "len", "write-read"}
 var c08Origins = []string{"literal", "file", "stdin", "command", "stdin-in-function"}
 var c08Positions = []string{"only", "first", "middle", "last"}
 
@@ -82,6 +82,13 @@ func c08Program(v, path, origin string) (src string, stdin string, pre map[strin
 	case "argument":
 		b.WriteString("func show(a string) {\n\tprint(\"S\", a, \"E\")\n}\nshow(v)\n")
 		wantOut = frame(v)
+	case "argument-direct":
+		// the value is written directly in the argument list (only meaningful for a literal)
+		if origin != "literal" {
+			return "", "", nil, "", nil, false
+		}
+		b.WriteString("func show(a string, b string) {\n\tprint(\"S\", a, \"E\")\n\tprint(\"T\", b, \"E\")\n}\nshow(" + q(v) + ", \"k\")\nshow(\"k\", " + q(v) + ")\n")
+		wantOut = frame(v) + "T k E\n" + "S k E\n" + "T " + v + " E\n"
 	case "return":
 		b.WriteString("func same(a string) string {\n\treturn a\n}\nr := same(v)\nprint(\"S\", r, \"E\")\n")
 		wantOut = frame(v)
